@@ -208,6 +208,10 @@ def draw_history(rng, tier):
         # the class's own dialect stays the next fallback (twin: Config.dialect = D over D_own)
         cfg_dialect = rng.choice([0, 1, 2]) if (own_cfg and rng.random() < 0.3) else None
         classes.append({"i": i, "parent": parent, "support": support, "own_cfg": own_cfg, "fields": kinds, "cfg_dialect": cfg_dialect})
+        if own_cfg and rng.random() < 0.3:
+            # Config.serialization_strategy of the class for types the dialects customise too: a dialect (call-time or
+            # Config.dialect alike) is consulted before it
+            classes[-1]["cfg_strategy"] = True
     dialects = [draw_dialect_spec(rng, f"D{k}") for k in range(3)]
     events = []
     defined = 0
@@ -282,8 +286,13 @@ class Family:
             self._P = mk(f"P_{self.uid}", (self.mixin,), {"__annotations__": {"d": datetime.date, "o": Optional[int]}, "o": None})
         return self._P
 
-    def config(self, support, own=None):
+    def config(self, support, own=None, strategy=False):
         cfg = {"code_generation_options": [self.ADD] if support else []}
+        if strategy:
+            cfg["serialization_strategy"] = {
+                datetime.date: {"serialize": lambda v: f"CS|{v.isoformat()}", "deserialize": lambda x: datetime.date.fromisoformat(x.split("|", 1)[1] if isinstance(x, str) and "|" in x else x) if isinstance(x, str) else x},
+                int: {"serialize": lambda v: f"CS#{v}", "deserialize": lambda x: int(x.split("#", 1)[1]) if isinstance(x, str) and "#" in x else int(x)},
+            }
         if self.h.get("orjson_sort") and self.h["mixin"] == "orjson":
             import orjson
 
@@ -335,11 +344,11 @@ class Family:
         ns["__annotations__"] = ann
         if spec["parent"] is None:
             bases = (self.mixin,)
-            ns["Config"] = self.config(spec["support"], spec.get("cfg_dialect"))
+            ns["Config"] = self.config(spec["support"], spec.get("cfg_dialect"), spec.get("cfg_strategy", False))
         else:
             bases = (self.cls[spec["parent"]],)
             if spec["own_cfg"]:
-                ns["Config"] = self.config(spec["support"], spec.get("cfg_dialect"))
+                ns["Config"] = self.config(spec["support"], spec.get("cfg_dialect"), spec.get("cfg_strategy", False))
         self.cls[i] = mk(f"C{i}_{self.uid}", bases, ns, kw_only=True)
 
     def define_upto(self, i):
